@@ -205,29 +205,26 @@ func oracle(w *WorkloadCfg, out Outcome) []Symptom {
 			}
 			delete(open, e.To)
 			done[e.To] = true
-			if e.Dst != requester {
-				add("wrong_destination", e.To, e.Dst)
-			}
+			// one class per response, in the order of MemHier!Class
+			want := "done"
 			if is.K == "read" {
-				if e.K != "data" {
-					add("wrong_kind", e.To, e.K)
-					continue
-				}
-				if len(e.Data) != is.Len {
-					add("wrong_length", e.To, fmt.Sprintf("%d bytes for a read of %d", len(e.Data), is.Len))
-					continue
-				}
+				want = "data"
+			}
+			switch {
+			case e.K != want:
+				add("wrong_kind", e.To, e.K)
+			case e.Dst != requester:
+				add("wrong_destination", e.To, e.Dst)
+			case is.K == "read" && len(e.Data) != is.Len:
+				add("wrong_length", e.To, fmt.Sprintf("%d bytes for a read of %d", len(e.Data), is.Len))
+			case is.K == "read":
 				for i := 0; i < is.Len; i++ {
 					if e.Data[i] != flat[is.Addr+i] {
 						add("wrong_data", e.To, fmt.Sprintf("byte %d of read @%d+%d: got %d want %d", i, is.Addr, is.Len, e.Data[i], flat[is.Addr+i]))
 						break
 					}
 				}
-			} else {
-				if e.K != "done" {
-					add("wrong_kind", e.To, e.K)
-					continue
-				}
+			default:
 				for i := 0; i < is.Len; i++ {
 					if len(is.Mask) == 0 || is.Mask[i] {
 						flat[is.Addr+i] = is.Data[i]
@@ -240,9 +237,8 @@ func oracle(w *WorkloadCfg, out Outcome) []Symptom {
 			}
 		case evFlush:
 			if !e.OK {
-				add("control_flush_failed", 0, e.Comp)
-			}
-			if d := flushRule(&e); d != "" {
+				add("flush_refused", 0, e.Comp)
+			} else if d := flushRule(&e); d != "" {
 				add("flush_rule", 0, e.Comp+": "+d)
 			}
 		case evBacking:
@@ -317,6 +313,14 @@ func flushRule(e *evFlush) string {
 	for _, t := range e.Wrote {
 		got[t]++
 	}
+	for _, t := range e.Pending { // queued before the flush: not the flush's doing
+		if got[t] > 0 {
+			got[t]--
+			if got[t] == 0 {
+				delete(got, t)
+			}
+		}
+	}
 	for t, n := range want {
 		if got[t] != n {
 			return fmt.Sprintf("line %d written back %d times, expected %d", t, got[t], n)
@@ -326,9 +330,6 @@ func flushRule(e *evFlush) string {
 		if want[t] != n {
 			return fmt.Sprintf("line %d written back %d times, expected %d", t, n, want[t])
 		}
-	}
-	if e.Reads != 0 {
-		return fmt.Sprintf("%d reads sent downwards during a flush", e.Reads)
 	}
 	return ""
 }
